@@ -24,6 +24,12 @@ VARIANTS = [dict(), dict(twofreq=True, case="VTI"), dict(gmode="dict"),
 SHARED_KEY = "sharedfiledir"
 
 
+def _prepare(vi):
+    os.environ.setdefault("NUMBA_NUM_THREADS", "1")
+    from . import simreplay
+    return simreplay.Problem(VARIANTS[vi], seed=vi).prepare()
+
+
 def _replay(job):
     os.environ.setdefault("NUMBA_NUM_THREADS", "1")
     from . import simreplay
@@ -153,7 +159,7 @@ def exhaustive(rep, tier):
         ok = C.expect_tlc_ok(rep, f"{cfg}: {what}", res, "C12")
         if ok and cfg == "SimCache_mem.cfg":
             C.check_coverage(res, ["Compute", "Misfit", "Gradient", "Jvec",
-                                   "Jtvec", "GetField", "Clean",
+                                   "Jtvec", "GetField", "Clean", "ComputeObs",
                                    "ModelUpdate", "Fork", "DictRT"],
                              "SimCache_mem")
     rep.cov["exhaustive"] = True
@@ -163,6 +169,12 @@ def exhaustive(rep, tier):
     rep.canary(bool(r.violated))
     if not r.violated:
         raise C.MachineryError("TLC did not find the jtvec deviation")
+    r = C.run_tlc("SimCache", "SimCache_dev_observed.cfg", timeout=600)
+    C.tlc_must_run(r, "SimCache_dev_observed")
+    rep.canary(bool(r.violated))
+    if not r.violated:
+        raise C.MachineryError("TLC did not find the compute(observed=True) "
+                               "deviation")
     # the code's shared file_dir, modelled as it is: TLC must report it, and
     # it is a (known) finding about the code
     r = C.run_tlc("SimCache", "SimCache_dev_shared.cfg", timeout=600)
@@ -217,7 +229,8 @@ def canaries(rep, jobs, rng):
     j = find(lambda st: st["last"]["op"] == "gradient"
              and st["last"]["kind"] == "value")
     if j:      # spec claims the gradient belongs to another model
-        j[2][-1]["last"]["prov"] = (1 - j[2][-1]["last"]["prov"][0],)*2
+        pv = j[2][-1]["last"]["prov"]
+        j[2][-1]["last"]["prov"] = (1 - pv[0], 1 - pv[0] + 10*(pv[1]//10))
         muts.append(("ret-gradient-prov", j))
     j = find(lambda st: st["last"]["op"] == "clean"
              and st["last"]["arg"] == "computed")
@@ -250,8 +263,8 @@ def run(tier, replay=None):
         "magnetic and source-relative receivers, a NaN gap in the data",
         "values are compared with a fresh simulation at relative 1e-8 "
         "(identical computations are expected to agree to rounding)",
-        "model update keeps the grid; observed data are never changed by the "
-        "histories (compute(observed=True) is not in the alphabet)"]
+        "model update keeps the grid; observed data change only through "
+        "compute(observed=True, add_noise=False)"]
     jobs = []
     if replay:
         with open(replay) as f:
@@ -279,6 +292,11 @@ def run(tier, replay=None):
         jobs = j1 + j2 + j3 + j4
         meta = ([("w1-cover", None)]*len(j1) + [("w2-sim", None)]*len(j2) +
                 [("w1file-cover", None)]*len(j3) + [("w2file-sim", None)]*len(j4))
+    need = sorted({j[0] for j in jobs} - set(_PROB))
+    if need:
+        with mp.get_context("fork").Pool(len(need)) as pool:
+            for vi, pr in zip(need, pool.map(_prepare, need)):
+                _PROB[vi] = pr
     with mp.get_context("fork").Pool(C.NCPU) as pool:
         results = pool.map(_replay, jobs, chunksize=2)
     nsteps = 0
